@@ -75,7 +75,7 @@ func fuzzTargets() []fuzzTarget {
 			return
 		}, func(w *world, raw []byte) (string, string) { o := w.runTx(raw); return o.stage, o.panicked }},
 		{"FuzzC19Block", func(w *world) []namedBytes { return []namedBytes{{"block", w.block}} },
-			func(w *world, raw []byte) (string, string) { st, p, _ := w.runBlock(raw); return st, p }},
+			func(w *world, raw []byte) (string, string) { st, p, _ := w.runBlockOpt(raw, false); return st, p }},
 		{"FuzzC19QC", func(w *world) []namedBytes { return []namedBytes{{"certificate", w.qc}} },
 			func(w *world, raw []byte) (string, string) { return w.runQC(raw) }},
 		{"FuzzC19Bft", func(w *world) []namedBytes { return bftKindSeeds() }, func(w *world, raw []byte) (string, string) { return runBftFresh(raw) }},
